@@ -548,6 +548,7 @@ func (fx *FuncExec) evalBuiltin(st *State, call *ast.CallExpr, name string) []Te
 			mi := fx.reg.mapOf(u)
 			m := fx.alloc(st, mi.Sort, "map")
 			fx.setHq(st, mi.Dom, store(fx.H(st, mi.Dom), m, "((as const (Array "+mi.K+" Bool)) false)"))
+			fx.setHq(st, mi.Val, store(fx.H(st, mi.Val), m, fx.reg.ZeroArr(mi.K, mi.V)))
 			return []Term{{S: m, Sort: mi.Sort, T: t, Fresh: true}}
 		case *types.Slice:
 			n := fx.eval(st, call.Args[1])
